@@ -921,6 +921,10 @@ static void janet_thread_chan_cb(JanetEVGenericMessage msg) {
                 msg.argp = channel;
                 msg.argj = x;
                 janet_ev_post_event(vm, janet_thread_chan_cb, msg);
+            } else {
+                /* No other reader is waiting - put the (still packed) item back at the
+                 * front of the queue so that the next take gets it instead of dropping it. */
+                janet_q_push_head(&channel->items, &x, sizeof(Janet));
             }
         } else {
             JanetChannelPending writer;
